@@ -198,6 +198,30 @@ def r4_reducer_and_compare(ctx):
                 if es.enum == "sos_core::events::file::FileEvent":
                     handled |= set(es.targets)
                     wild = wild or es.otherwise_live
+        # each arm performs its set operations unconditionally: a move always
+        # yields the destination (a partial replay — the events merged since the
+        # last sync — sees a MoveFile whose CreateFile is not in the window)
+        want_ops = {"CreateFile": ["insert"], "MoveFile": ["shift_remove", "insert"], "DeleteFile": ["shift_remove"]}
+        for b in [b for f in red for b in f.bodies]:
+            for es in cfg.enum_switches(b):
+                if es.enum != "sos_core::events::file::FileEvent":
+                    continue
+                regs = idioms.arm_regions(b, es)
+                for v, ops_ in want_ops.items():
+                    if v not in es.targets:
+                        continue
+                    reg = regs.get(v, set())
+                    for op_ in ops_:
+                        sites = [i for i in reg if (b.blocks[i].get("term") or {}).get("k") == "call" and cname(b.blocks[i]["term"]) in (op_, op_.replace("shift_", "swap_"), op_.replace("shift_", ""))]
+                        kk = "%s|%s-arm:%s" % (red[0].root, v, op_)
+                        if not sites:
+                            r.violation(kk, cfg.loc(b, es.block), "the %s arm of the file reducer no longer calls %s" % (v, op_), work=len(reg))
+                            continue
+                        escaped = cfg.reach(b, [es.targets[v]], cut_blocks=sites) - reg
+                        if escaped:
+                            r.violation(kk, cfg.loc(b, sites[0]), "in the %s arm `%s` sits behind a condition: when the arm runs without it (e.g. a move whose source is not in the replayed window) the canonical file set misses the file and the blob is never downloaded" % (v, op_), work=len(reg))
+                        else:
+                            r.ok(kk, cfg.loc(b, sites[0]), "%s arm always performs %s" % (v, op_), work=len(reg))
         need = {"CreateFile", "MoveFile", "DeleteFile"}
         k = red[0].root + "|handles"
         if need <= handled:
